@@ -194,46 +194,94 @@ def clamp(repo, rep):
 
 
 def refusals(repo, rep):
+    """refusals decided on the path conditions of the symbolic evaluation (helpers split off from the methods are inlined)"""
+    from ..rules import formula_dnf, assume
     rep.rule("R-RANGE-REFUSE", "a dominating test with the stated bounds reaches raise ValueError")
+    X = T.sym("NUM_X")
     for q in ("__call__", "derivative"):
         qual = "%s.%s" % (CLS, q)
         rep.fn(MOD, qual)
         fn = repo.func(MOD, qual)
-        x = fn.args.args[1].arg
-        found = False
-        for n in ast.walk(fn):
-            if isinstance(n, ast.If) and any(isinstance(s, ast.Raise) and exc_name(s) == "ValueError" for s in n.body):
-                txt = norm_text(n.test).replace(" ", "")
-                if ("%s<self._x[0]" % x) in txt and ("%s>self._x[-1]" % x) in txt and isinstance(n.test, ast.BoolOp) and isinstance(n.test.op, ast.Or):
-                    found = True
+        xname = fn.args.args[1].arg
+        outs = outcomes(repo, MOD, qual, arg_terms={"self": T.sym("self"), xname: X})
+        lows = highs = False
+        for o in outs:
+            if o.kind != "raise" or o.value != ("str", "ValueError"):
+                continue
+            for conj in (formula_dnf(o.cond) or []):
+                for a, pol in conj:
+                    if pol and a[0] == "cmp" and a[2] == X and a[3][0] == "idx":
+                        if a[1] == "Lt" and a[3][2] == T.ZERO:
+                            lows = True
+                        if a[1] == "Gt" and a[3][2] == T.num(-1):
+                            highs = True
         site = "%s.%s" % (MOD, qual)
-        if found:
-            # no value may be computed from the table before the test on a path that skips it: the test is at the top
-            # level of the numeric branch and precedes the Horner evaluation
+        if lows and highs:
             rep.ok("R-RANGE-REFUSE", site, "x < x[0] or x > x[-1] -> ValueError")
         else:
             rep.violation("R-RANGE-REFUSE", site, "outside-table", "abscissae outside the table are not refused with ValueError (x < x[0] or x > x[-1])")
-    # duplicates
+    # duplicates: set() is executed on literal abscissa lists with one duplicated value at every pair of positions (n = 2..4);
+    # the differences are touched only through |x_i - x_k| < tol, decided for 0 < tol < 1: every such table must be refused
     qual = CLS + ".set"
     fn = repo.func(MOD, qual)
     rep.fn(MOD, qual)
-    dup = find_dup_check(fn)
-    if dup is None:
-        rep.violation("R-RANGE-REFUSE", "%s.%s" % (MOD, qual), "duplicates", "duplicated abscissae are not refused (no pairwise |x_i - x_k| < tol -> ValueError over all pairs)")
+    site = "%s.%s" % (MOD, qual)
+
+    def decide(c):
+        if c[0] == "cmp" and c[1] in ("Lt", "LtE") and c[2][0] == "num" and c[3][0] != "num":
+            return c[2][1] == 0 if c[1] == "Lt" else c[2][1] == 0
+        return None
+    va = fn.args.vararg.arg if fn.args.vararg else None
+    bad = None
+    n_cases = 0
+    if va is None:
+        rep.inconcl("R-RANGE-REFUSE", site, "set() signature not understood")
+        return
+    for n in (2, 3, 4):
+        for i in range(n):
+            for k in range(i + 1, n):
+                xs = [T.num(10 * (j + 1)) for j in range(n)]
+                xs[k] = xs[i]
+                args = ("tuple", ("list",) + tuple(xs), ("list",) + tuple(T.sym("Y%d" % j) for j in range(n)))
+                try:
+                    outs, _ = symx.eval_function(repo, MOD, qual, arg_terms={"self": T.sym("self"), va: args}, unroll=8)
+                except AnalysisError as e:
+                    rep.inconcl("R-RANGE-REFUSE", site, "set() not executable symbolically: %s" % e)
+                    return
+                n_cases += 1
+                refused = False
+                survives = False
+                for o in outs:
+                    c = symx.fold_bool(assume(o.cond, decide))
+                    if c == ("bool", False):
+                        continue
+                    if o.kind == "raise" and o.value == ("str", "ValueError") and c == ("bool", True):
+                        refused = True
+                    elif o.kind in ("fall", "ret") and c == ("bool", True):
+                        survives = True
+                if (not refused or survives) and bad is None:
+                    bad = (n, i, k)
+    if bad is None:
+        rep.ok("R-RANGE-REFUSE", site, "a duplicated abscissa is refused with ValueError at every pair of positions (%d tables of 2..4 points)" % n_cases)
     else:
-        rep.ok("R-RANGE-REFUSE", "%s.%s" % (MOD, qual), "pairwise |x_i - x_k| < tol -> ValueError over all i < k")
+        rep.violation("R-RANGE-REFUSE", site, "duplicates", "a table of %d points whose abscissae %d and %d coincide is not refused with ValueError" % bad)
 
 
-def find_dup_check(fn):
+def find_dup_check(fn, helpers=()):
+    """index of the top-level statement of set() that performs the pairwise duplicate test (a nested loop reaching
+    raise ValueError), directly or through a helper split off from set()"""
+    def is_dup_loop(s):
+        loops = [n for n in ast.walk(s) if isinstance(n, ast.For)]
+        raises_ = [n for n in ast.walk(s) if isinstance(n, ast.Raise) and exc_name(n) == "ValueError"]
+        tests = [n for n in ast.walk(s) if isinstance(n, ast.If) and "abs(" in norm_text(n.test) and "<" in norm_text(n.test)]
+        return len(loops) >= 2 and bool(raises_) and bool(tests)
     for i, s in enumerate(fn.body):
-        if isinstance(s, ast.For):
-            inner = [n for n in ast.walk(s) if isinstance(n, ast.For) and n is not s]
-            raises_ = [n for n in ast.walk(s) if isinstance(n, ast.Raise) and exc_name(n) == "ValueError"]
-            tests = [n for n in ast.walk(s) if isinstance(n, ast.If) and "abs(self._x[" in norm_text(n.test) and "<" in norm_text(n.test)]
-            if inner and raises_ and tests:
-                t0 = norm_text(s.iter).replace(" ", "")
-                t1 = norm_text(inner[0].iter).replace(" ", "")
-                if "len(self._x)" in t0 and "len(self._x)" in t1:
+        if isinstance(s, ast.For) and is_dup_loop(s):
+            return i
+        if isinstance(s, ast.Expr) and isinstance(s.value, ast.Call):
+            nm = s.value.func.attr if isinstance(s.value.func, ast.Attribute) else s.value.func.id if isinstance(s.value.func, ast.Name) else None
+            for h in helpers:
+                if h.name == nm and any(isinstance(b, ast.For) and is_dup_loop(b) for b in h.body):
                     return i
     return None
 
@@ -243,7 +291,8 @@ def order(repo, rep):
     qual = CLS + ".set"
     fn = repo.func(MOD, qual)
     body = fn.body
-    i_dup = find_dup_check(fn)
+    from ..rules import with_new_helpers
+    i_dup = find_dup_check(fn, with_new_helpers(repo, MOD, fn)[1:])
     i_ord = i_tab = None
     for i, s in enumerate(body):
         if isinstance(s, ast.Expr) and isinstance(s.value, ast.Call) and norm_text(s.value.func) == "self._order_points":
